@@ -77,4 +77,17 @@ theorem parseInt10_digits (ds : Bytes) (h : ds.all isDigit = true) (h1 : 1 ≤ d
     have : ¬ (digitsValue (c :: rest) ≥ 2 ^ 63) := by omega
     simp [this]
 
+theorem foldl_zeros (ds : Bytes) (hz : ∀ b ∈ ds, b = 48) :
+    ds.foldl (fun acc b => acc * 10 + (b.toNat - 48)) 0 = 0 := by
+  induction ds with
+  | nil => rfl
+  | cons b bs ih =>
+    have hb : b = 48 := hz b (by simp)
+    subst hb
+    simp only [List.foldl_cons]
+    exact ih (fun b hb => hz b (by simp [hb]))
+
+theorem digitsValue_zeros (ds : Bytes) (hz : ∀ b ∈ ds, b = 48) : digitsValue ds = 0 :=
+  foldl_zeros ds hz
+
 end GB.C12
